@@ -605,6 +605,512 @@ Proof.
   pose proof (IH _ (astep_NoDup _ _ _ ND) Hr Hs') as HI.
   assert (E : (total_len (astep OShift (it_from it) aq) + 1 = total_len aq)%nat).
   { rewrite Eaq. rewrite astep_split by auto.
-    rewrite !total_len_app. destruct q0 as [|t1 q1]; cbn. Show. all: lia. }
+    rewrite !total_len_app. destruct q0 as [|t1 q1]; unfold total_len; cbn; lia. }
   lia.
 Qed.
+
+(* ------------------------------------------------------------------------- *)
+(* the iterator refines the queue machine *)
+
+Definition R (bf : option N) (st : state) (aq : aqueues) : Prop :=
+  st_basefee st = bf /\ heap_inv less (st_heads st) /\
+  Permutation (st_heads st) (head_items bf aq) /\ NoDup (map fst aq) /\
+  (forall a q, In (a, q) aq ->
+     exists t r, q = t :: r /\ afford_prefix bf (txs_of a (st_txs st)) = r).
+
+Lemma R_best bf st aq h0 hr :
+  R bf st aq -> st_heads st = h0 :: hr ->
+  In h0 (head_items bf aq) /\
+  (forall it', In it' (head_items bf aq) -> less it' h0 = false).
+Proof.
+  intros (Hb & Hh & Hp & ND & Hq) E. split.
+  - eapply Permutation_in; [exact Hp|]. rewrite E. now left.
+  - intros it' Hin.
+    apply (heap_root_best less less_asym nless_trans (st_heads st)); auto.
+    + rewrite E. reflexivity.
+    + eapply Permutation_in; [apply Permutation_sym; exact Hp|auto].
+Qed.
+
+Lemma head_items_mid bf aq1 a t q aq2 :
+  head_items bf (aq1 ++ (a, t :: q) :: aq2) =
+  head_items bf aq1 ++ mkItem t a (eff_fee bf t) :: head_items bf aq2.
+Proof. rewrite head_items_app. reflexivity. Qed.
+
+Lemma drop_R bf st aq h0 hr o :
+  R bf st aq -> st_heads st = h0 :: hr ->
+  (forall q, In (it_from h0, it_tx h0 :: q) aq ->
+             astep_entry o (it_from h0) (it_tx h0 :: q) = []) ->
+  exists st', pop st = Ok st' /\ R bf st' (astep o (it_from h0) aq).
+Proof.
+  intros HR E Hdrop. destruct (R_best _ _ _ _ _ HR E) as [Hin _].
+  destruct HR as (Hb & Hh & Hp & ND & Hq).
+  destruct (heap_pop_spec less less_asym nless_trans (st_heads st))
+    as (x & h' & Hpop & Hx & Pp & Hh'); auto.
+  { rewrite E; discriminate. }
+  rewrite E in Hx. cbn in Hx. injection Hx as <-.
+  unfold pop. rewrite Hpop. cbn [bind]. eexists; split; [reflexivity|].
+  destruct (head_in_split _ _ _ ND Hin) as (aq1 & q0 & aq2 & Eaq & Eit & N1 & N2).
+  assert (Estep : astep o (it_from h0) aq = aq1 ++ aq2).
+  { rewrite Eaq. rewrite astep_split by auto. rewrite Hdrop; auto.
+    rewrite Eaq. apply in_or_app. right. now left. }
+  rewrite Estep. unfold R. cbn [st_basefee st_heads st_txs].
+  repeat split; auto.
+  - assert (P : Permutation (h0 :: h') (head_items bf aq1 ++ h0 :: head_items bf aq2)).
+    { eapply perm_trans; [apply Permutation_sym, Pp|]. eapply perm_trans; [exact Hp|].
+      rewrite Eaq, head_items_mid, <- Eit. apply Permutation_refl. }
+    apply Permutation_cons_app_inv in P. now rewrite head_items_app.
+  - rewrite Eaq in ND. rewrite map_app in *. cbn in ND. now apply NoDup_remove_1 in ND.
+  - intros a q Hin'. apply Hq. rewrite Eaq. apply in_app_or in Hin'. apply in_or_app.
+    destruct Hin'; [left|right; right]; auto.
+Qed.
+
+Lemma pop_R bf st aq h0 hr :
+  R bf st aq -> st_heads st = h0 :: hr ->
+  exists st', pop st = Ok st' /\ R bf st' (astep OPop (it_from h0) aq).
+Proof. intros HR E. eapply drop_R; eauto. Qed.
+
+Lemma shift_R bf st aq h0 hr :
+  R bf st aq -> st_heads st = h0 :: hr ->
+  exists st', shift st = Ok st' /\ R bf st' (astep OShift (it_from h0) aq).
+Proof.
+  intros HR E.
+  assert (Hq0 : forall q, In (it_from h0, it_tx h0 :: q) aq ->
+                q = afford_prefix bf (txs_of (it_from h0) (st_txs st))).
+  { intros q Hin. destruct HR as (_ & _ & _ & _ & Hq).
+    destruct (Hq _ _ Hin) as (t & r & Et & Er). injection Et as <- <-. now symmetry. }
+  assert (Hdrop : afford_prefix bf (txs_of (it_from h0) (st_txs st)) = [] ->
+                  exists st', pop st = Ok st' /\ R bf st' (astep OShift (it_from h0) aq)).
+  { intros En. eapply drop_R; eauto. intros q Hin. rewrite (Hq0 _ Hin), En. reflexivity. }
+  assert (Hb : st_basefee st = bf) by apply HR.
+  unfold shift. rewrite E.
+  destruct (lookup (it_from h0) (st_txs st)) as [[|t1 rest]|] eqn:El.
+  - apply Hdrop. unfold txs_of. now rewrite El.
+  - rewrite new_fee_spec, Hb.
+    destruct (affordable bf t1) eqn:Ea.
+    + destruct (R_best _ _ _ _ _ HR E) as [Hin _].
+      destruct HR as (_ & Hh & Hp & ND & Hq).
+      cbn [set_nth].
+      set (w := mkItem t1 (it_from h0) (eff_fee bf t1)).
+      rewrite E in Hh, Hp.
+      destruct (heap_fix0_spec less less_asym nless_trans h0 w hr Hh) as (hs & Hfix & Pf & Hhs).
+      rewrite Hfix. cbn [bind]. eexists; split; [reflexivity|].
+      destruct (head_in_split _ _ _ ND Hin) as (aq1 & q0 & aq2 & Eaq & Eit & N1 & N2).
+      assert (Eq0 : q0 = t1 :: afford_prefix bf rest).
+      { rewrite (Hq0 q0).
+        - unfold txs_of. rewrite El. cbn. now rewrite Ea.
+        - rewrite Eaq. apply in_or_app. right. now left. }
+      assert (Estep : astep OShift (it_from h0) aq =
+                      aq1 ++ (it_from h0, t1 :: afford_prefix bf rest) :: aq2).
+      { rewrite Eaq. rewrite astep_split by auto. rewrite Eq0. reflexivity. }
+      rewrite Estep. unfold R. cbn [st_basefee st_heads st_txs].
+      repeat split; auto.
+      * rewrite head_items_mid. fold w.
+        eapply perm_trans; [apply Permutation_sym, Pf|].
+        apply Permutation_cons_app.
+        rewrite Eaq, head_items_mid, <- Eit in Hp.
+        now apply Permutation_cons_app_inv in Hp.
+      * rewrite Eaq in ND. rewrite map_app in *. exact ND.
+      * intros a q Hin'.
+        assert (Hcase : (a <> it_from h0 /\ In (a, q) aq) \/
+                        (a = it_from h0 /\ q = t1 :: afford_prefix bf rest)).
+        { apply in_app_or in Hin'. destruct Hin' as [H|[H|H]].
+          - left. split.
+            + intros ->. apply N1. apply (in_map fst) in H. exact H.
+            + rewrite Eaq. apply in_or_app. now left.
+          - right. injection H as <- <-. auto.
+          - left. split.
+            + intros ->. apply N2. apply (in_map fst) in H. exact H.
+            + rewrite Eaq. apply in_or_app. right. now right. }
+        destruct Hcase as [[Hne Hold]|[-> ->]].
+        -- destruct (Hq _ _ Hold) as (t & r & -> & Hr). exists t, r. split; auto.
+           unfold txs_of in *. now rewrite lookup_update_neq.
+        -- exists t1, (afford_prefix bf rest). split; auto.
+           unfold txs_of. now rewrite lookup_update_eq.
+    + apply Hdrop. unfold txs_of. rewrite El. cbn. now rewrite Ea.
+  - apply Hdrop. unfold txs_of. now rewrite El.
+Qed.
+
+Lemma shift_empty_panics st : st_heads st = [] -> shift st = Panic /\ pop st = Panic.
+Proof. intros E. unfold shift, pop. rewrite E. split; reflexivity. Qed.
+
+(* ------------------------------------------------------------------------- *)
+(* the constructor *)
+
+Definition rest_map (bf : option N) (es : amap) : amap :=
+  flat_map (fun p => match snd p with
+                     | t0 :: rest => if affordable bf t0 then [(fst p, rest)] else []
+                     | [] => []
+                     end) es.
+
+Lemma flat_map_keys_NoDup {B} (f : N * B -> list (N * B)) l :
+  (forall p q, In q (f p) -> fst q = fst p) -> (forall p, (length (f p) <= 1)%nat) ->
+  NoDup (map fst l) -> NoDup (map fst (flat_map f l)).
+Proof.
+  intros Hk Hl. induction l as [|p l IH]; intros ND; cbn; [constructor|].
+  inversion ND as [|? ? Hn ND']; subst. specialize (IH ND').
+  rewrite map_app.
+  destruct (f p) as [|q [|q' r]] eqn:Ef; cbn; auto.
+  - constructor; auto. intros Hin. apply Hn.
+    apply in_map_iff in Hin as (q2 & E2 & Hin). apply in_flat_map in Hin as (p2 & Hp2 & Hq2).
+    apply Hk in Hq2. apply in_map_iff. exists p2. split; auto.
+    rewrite <- Hq2, E2. apply Hk. rewrite Ef. now left.
+  - specialize (Hl p). rewrite Ef in Hl. cbn in Hl. lia.
+Qed.
+
+Lemma aq_init_NoDup bf pend : NoDup (map fst pend) -> NoDup (map fst (aq_init bf pend)).
+Proof.
+  apply flat_map_keys_NoDup.
+  - intros p q. destruct (afford_prefix bf (snd p)); cbn; [tauto|]. intros [<-|[]]. reflexivity.
+  - intros p. destruct (afford_prefix bf (snd p)); cbn; lia.
+Qed.
+
+Lemma rest_map_NoDup bf pend : NoDup (map fst pend) -> NoDup (map fst (rest_map bf pend)).
+Proof.
+  apply flat_map_keys_NoDup.
+  - intros p q. destruct (snd p) as [|t0 rest]; cbn; [tauto|].
+    destruct (affordable bf t0); cbn; [|tauto]. intros [<-|[]]. reflexivity.
+  - intros p. destruct (snd p) as [|t0 rest]; cbn; [lia|]. destruct (affordable bf t0); cbn; lia.
+Qed.
+
+Lemma aq_init_In bf pend a q :
+  In (a, q) (aq_init bf pend) <->
+  exists l, In (a, l) pend /\ q = afford_prefix bf l /\ q <> [].
+Proof.
+  unfold aq_init. rewrite in_flat_map. split.
+  - intros ([b l] & Hin & H). cbn in H. destruct (afford_prefix bf l) as [|t r] eqn:E; [contradiction|].
+    destruct H as [H|[]]. injection H as <- <-. exists l. repeat split; auto. discriminate.
+  - intros (l & Hin & -> & Hne). exists (a, l). split; auto. cbn.
+    destruct (afford_prefix bf l); [congruence|]. now left.
+Qed.
+
+Lemma aq_init_lookup bf pend a q :
+  NoDup (map fst pend) ->
+  (In (a, q) (aq_init bf pend) <-> q = afford_prefix bf (txs_of a pend) /\ q <> []).
+Proof.
+  intros ND. rewrite aq_init_In. unfold txs_of. split.
+  - intros (l & Hin & -> & Hne). now rewrite (lookup_In _ _ _ ND Hin).
+  - intros [-> Hne]. destruct (lookup a pend) as [l|] eqn:El; [|now cbn in Hne].
+    exists l. split; auto. now apply lookup_Some_In.
+Qed.
+
+Lemma aq_init_cons bf a l r :
+  aq_init bf ((a, l) :: r) =
+  match afford_prefix bf l with [] => [] | q => [(a, q)] end ++ aq_init bf r.
+Proof. reflexivity. Qed.
+
+Lemma new_loop_spec bf : forall es hs pre,
+  NoDup (map fst (pre ++ es)) -> Forall (fun p => snd p <> []) es ->
+  new_loop bf es hs (pre ++ es) =
+  Ok (hs ++ head_items bf (aq_init bf es), pre ++ rest_map bf es).
+Proof.
+  induction es as [|[a l] es IH]; intros hs pre ND Hne.
+  { cbn. now rewrite !app_nil_r. }
+  inversion Hne as [|? ? Hl Hne']; subst. cbn in Hl.
+  destruct l as [|t0 rest]; [congruence|].
+  assert (Hk : ~ In a (map fst pre) /\ ~ In a (map fst es)).
+  { rewrite map_app in ND. cbn in ND. apply NoDup_remove_2 in ND. rewrite in_app_iff in ND. tauto. }
+  destruct Hk as [K1 K2].
+  cbn [new_loop]. rewrite new_fee_spec, aq_init_cons. cbn [afford_prefix].
+  unfold rest_map. cbn [flat_map fst snd]. fold (rest_map bf es).
+  destruct (affordable bf t0) eqn:Ea.
+  - rewrite update_app_mid by auto.
+    change (pre ++ (a, rest) :: es) with (pre ++ [(a, rest)] ++ es). rewrite app_assoc.
+    rewrite IH; auto.
+    + rewrite <- !app_assoc. reflexivity.
+    + rewrite <- app_assoc. cbn. rewrite map_app in *. exact ND.
+  - rewrite delete_app_mid by auto. rewrite IH; auto.
+    rewrite map_app in *. cbn in ND. now apply NoDup_remove_1 in ND.
+Qed.
+
+Lemma new_loop_panics bf : forall es hs m a,
+  In (a, []) es -> new_loop bf es hs m = Panic.
+Proof.
+  induction es as [|[b l] es IH]; intros hs m a Hin; [contradiction|].
+  cbn [new_loop]. destruct l as [|t0 rest]; auto.
+  destruct Hin as [H|H]; [discriminate|].
+  destruct (new_tx_with_miner_fee t0 b bf); eapply IH; eauto.
+Qed.
+
+Lemma new_loop_ok_nonempty bf : forall es hs m r,
+  new_loop bf es hs m = Ok r -> Forall (fun p => snd p <> []) es.
+Proof.
+  induction es as [|[b l] es IH]; intros hs m r H; [constructor|].
+  cbn [new_loop] in H. destruct l as [|t0 rest]; [discriminate|].
+  constructor; [discriminate|].
+  destruct (new_tx_with_miner_fee t0 b bf); eapply IH; eauto.
+Qed.
+
+Lemma new_R pend bf :
+  NoDup (map fst pend) -> Forall (fun p => snd p <> []) pend ->
+  exists st, new_by_price_and_nonce pend bf = Ok st /\ R bf st (aq_init bf pend).
+Proof.
+  intros ND Hne. unfold new_by_price_and_nonce.
+  pose proof (new_loop_spec bf pend [] [] ND Hne) as Hl. cbn [app] in Hl.
+  rewrite Hl. cbn [bind].
+  destruct (heap_init_spec less less_asym nless_trans (head_items bf (aq_init bf pend)))
+    as (h' & -> & P & Hh).
+  cbn [bind]. eexists; split; [reflexivity|].
+  unfold R. cbn [st_basefee st_heads st_txs]. repeat split; auto.
+  - now apply Permutation_sym.
+  - now apply aq_init_NoDup.
+  - intros a q Hin. apply aq_init_In in Hin as (l & Hin & -> & Hq).
+    destruct l as [|t0 rest]; [now cbn in Hq|]. cbn in *.
+    destruct (affordable bf t0) eqn:Ea; [|congruence].
+    exists t0, (afford_prefix bf rest). split; auto.
+    unfold txs_of. rewrite (lookup_In a rest); auto.
+    + now apply rest_map_NoDup.
+    + unfold rest_map. apply in_flat_map. exists (a, t0 :: rest). split; auto.
+      cbn. rewrite Ea. now left.
+Qed.
+
+Lemma new_ok_nonempty pend bf st :
+  new_by_price_and_nonce pend bf = Ok st -> Forall (fun p => snd p <> []) pend.
+Proof.
+  unfold new_by_price_and_nonce.
+  destruct (new_loop bf pend [] pend) as [r| |] eqn:E; try discriminate.
+  intros _. eapply new_loop_ok_nonempty; eauto.
+Qed.
+
+Lemma new_panics pend bf a : In (a, []) pend -> new_by_price_and_nonce pend bf = Panic.
+Proof.
+  intros H. unfold new_by_price_and_nonce. now rewrite (new_loop_panics bf pend [] pend a H).
+Qed.
+
+(* ------------------------------------------------------------------------- *)
+(* the builder's loop *)
+
+Lemma run_sim bf : forall script st aq,
+  R bf st aq ->
+  exists tr st', run st script = Ok (tr, st') /\ R bf st' (aq_after aq tr) /\
+    atrace bf aq tr /\ map snd tr = firstn (length tr) script /\
+    ((length tr < length script)%nat -> st_heads st' = []).
+Proof.
+  induction script as [|o script IH]; intros st aq HR.
+  { exists [], st. cbn. split; [reflexivity|]. split; [exact HR|]. split; [exact I|].
+    split; [reflexivity|]. lia. }
+  cbn [run]. unfold peek.
+  destruct (st_heads st) as [|h0 hr] eqn:E.
+  { exists [], st. cbn. split; [reflexivity|]. split; [exact HR|]. split; [exact I|].
+    split; [reflexivity|]. auto. }
+  assert (Hstep : exists st1, apply_op o st = Ok st1 /\ R bf st1 (astep o (it_from h0) aq)).
+  { destruct o; cbn [apply_op]; [eapply shift_R|eapply pop_R]; eauto. }
+  destruct Hstep as (st1 & -> & HR1). cbn [bind].
+  destruct (IH st1 _ HR1) as (tr & st' & -> & HR' & Ht & Hs & He). cbn [bind].
+  exists ((h0, o) :: tr), st'. cbn [aq_after atrace length map snd firstn].
+  destruct (R_best _ _ _ _ _ HR E) as [Hin Hbest].
+  split; [reflexivity|]. split; [exact HR'|].
+  split; [split; [exact Hin|split; [exact Hbest|exact Ht]]|].
+  split; [now rewrite Hs|]. intros Hl. apply He. lia.
+Qed.
+
+Lemma run_from_new pend bf st script tr st' :
+  NoDup (map fst pend) -> new_by_price_and_nonce pend bf = Ok st ->
+  run st script = Ok (tr, st') ->
+  atrace bf (aq_init bf pend) tr /\ R bf st' (aq_after (aq_init bf pend) tr) /\
+  map snd tr = firstn (length tr) script /\
+  ((length tr < length script)%nat -> st_heads st' = []).
+Proof.
+  intros ND Hnew Hrun.
+  destruct (new_R pend bf ND (new_ok_nonempty _ _ _ Hnew)) as (st0 & E0 & HR).
+  rewrite Hnew in E0. injection E0 as <-.
+  destruct (run_sim bf script st _ HR) as (tr0 & st0 & E1 & H).
+  rewrite Hrun in E1. injection E1 as <- <-. tauto.
+Qed.
+
+(* ------------------------------------------------------------------------- *)
+(* the ordering theorems, for every input map, base fee and Shift/Pop script *)
+
+Section FromNew.
+  Variables (pend : amap) (bf : option N) (st : state).
+  Hypothesis ND : NoDup (map fst pend).
+  Hypothesis Hnew : new_by_price_and_nonce pend bf = Ok st.
+
+  Lemma run_total script : exists tr st', run st script = Ok (tr, st').
+  Proof.
+    destruct (new_R pend bf ND (new_ok_nonempty _ _ _ Hnew)) as (st0 & E0 & HR).
+    rewrite Hnew in E0. injection E0 as <-.
+    destruct (run_sim bf script st _ HR) as (tr & st' & E & _). eauto.
+  Qed.
+
+  Section Run.
+  Variables (script : list op) (tr : list (item * op)) (st' : state).
+  Hypothesis Hrun : run st script = Ok (tr, st').
+
+  Lemma reach_heap_inv : heap_inv less (st_heads st').
+  Proof. destruct (run_from_new _ _ _ _ _ _ ND Hnew Hrun) as (_ & HR & _). apply HR. Qed.
+
+  Lemma peek_is_best tr1 it o tr2 :
+    tr = tr1 ++ (it, o) :: tr2 ->
+    In it (avail bf pend tr1) /\
+    (forall it', In it' (avail bf pend tr1) -> less it' it = false).
+  Proof.
+    intros E. destruct (run_from_new _ _ _ _ _ _ ND Hnew Hrun) as (Ht & _).
+    rewrite E in Ht. apply atrace_app in Ht as [_ Ht]. cbn in Ht. unfold avail. tauto.
+  Qed.
+
+  Lemma peek_final_is_best it :
+    peek st' = Some it ->
+    In it (avail bf pend tr) /\
+    (forall it', In it' (avail bf pend tr) -> less it' it = false).
+  Proof.
+    unfold peek. destruct (st_heads st') as [|h0 hr] eqn:E; [discriminate|].
+    intros H; injection H as <-.
+    destruct (run_from_new _ _ _ _ _ _ ND Hnew Hrun) as (_ & HR & _).
+    exact (R_best _ _ _ _ _ HR E).
+  Qed.
+
+  Lemma empty_iff : empty st' = true <-> avail bf pend tr = [].
+  Proof.
+    destruct (run_from_new _ _ _ _ _ _ ND Hnew Hrun) as (_ & HR & _).
+    destruct HR as (_ & _ & P & _). unfold avail, empty.
+    destruct (st_heads st') as [|h0 hr]; split; intros H; auto.
+    - now apply Permutation_nil in P.
+    - discriminate.
+    - rewrite H in P. apply Permutation_sym, Permutation_nil in P. discriminate.
+  Qed.
+
+  Lemma per_account_prefix a : exists s, afford_prefix bf (txs_of a pend) = proj a tr ++ s.
+  Proof.
+    destruct (run_from_new _ _ _ _ _ _ ND Hnew Hrun) as (Ht & _).
+    destruct (atrace_prefix bf tr _ (aq_init_NoDup bf pend ND) Ht) as [P1 P2].
+    destruct (afford_prefix bf (txs_of a pend)) as [|t q] eqn:E.
+    - exists []. rewrite P2; auto. intros Hin.
+      apply in_map_iff in Hin as ([b q] & Eb & Hin). cbn in Eb. subst b.
+      apply (aq_init_lookup bf pend a q ND) in Hin as [-> Hne]. congruence.
+    - apply P1. apply (aq_init_lookup bf pend a _ ND). rewrite E. split; [reflexivity|discriminate].
+  Qed.
+
+  Lemma afford_prefix_is_prefix l : exists s, l = afford_prefix bf l ++ s.
+  Proof.
+    induction l as [|t l [s IH]]; cbn; [now exists []|].
+    destruct (affordable bf t); [|now exists (t :: l)].
+    exists s. cbn. now f_equal.
+  Qed.
+
+  Lemma input_prefix a : exists s, txs_of a pend = proj a tr ++ s.
+  Proof.
+    destruct (per_account_prefix a) as [s Hs].
+    destruct (afford_prefix_is_prefix (txs_of a pend)) as [s' Hs'].
+    exists (s ++ s'). rewrite Hs' at 1. rewrite Hs. now rewrite app_assoc.
+  Qed.
+
+  Lemma never_before_predecessor tr1 it o tr2 :
+    tr = tr1 ++ (it, o) :: tr2 ->
+    nth_error (txs_of (it_from it) pend) (length (proj (it_from it) tr1)) = Some (it_tx it) /\
+    firstn (length (proj (it_from it) tr1)) (txs_of (it_from it) pend) = proj (it_from it) tr1.
+  Proof.
+    intros E. destruct (input_prefix (it_from it)) as [s Hs].
+    rewrite E, proj_app, proj_cons, N.eqb_refl, <- app_assoc in Hs. rewrite Hs. split.
+    - rewrite nth_error_app2 by lia. now rewrite Nat.sub_diag.
+    - rewrite firstn_app, Nat.sub_diag, firstn_all. cbn. apply app_nil_r.
+  Qed.
+
+  Lemma sorted_app_l {B} (Rel : B -> B -> Prop) l1 l2 :
+    StronglySorted Rel (l1 ++ l2) -> StronglySorted Rel l1.
+  Proof.
+    induction l1 as [|x l1 IH]; cbn; intros H; [constructor|].
+    inversion H as [|? ? Hs Hf]; subst. constructor; auto.
+    apply Forall_app in Hf. tauto.
+  Qed.
+
+  Lemma per_account_nonce_order :
+    (forall a l, In (a, l) pend -> StronglySorted N.lt (map tx_nonce l)) ->
+    forall a, StronglySorted N.lt (map tx_nonce (proj a tr)).
+  Proof.
+    intros Hs a. destruct (input_prefix a) as [s E].
+    assert (H : StronglySorted N.lt (map tx_nonce (txs_of a pend))).
+    { unfold txs_of. destruct (lookup a pend) as [l|] eqn:El; [|constructor].
+      apply (Hs a). apply lookup_Some_In, El. }
+    rewrite E, map_app in H. eapply sorted_app_l; eauto.
+  Qed.
+
+  Lemma astep_pop_notin a aq : ~ In a (map fst (astep OPop a aq)).
+  Proof.
+    unfold astep. induction aq as [|[c q] aq IH]; cbn; auto.
+    destruct (N.eqb_spec c a) as [->|Hne]; cbn; auto.
+    intros [H|H]; auto.
+  Qed.
+
+  Lemma pop_drops_account tr1 it tr2 :
+    tr = tr1 ++ (it, OPop) :: tr2 -> proj (it_from it) tr2 = [].
+  Proof.
+    intros E. destruct (run_from_new _ _ _ _ _ _ ND Hnew Hrun) as (Ht & _).
+    rewrite E in Ht. apply atrace_app in Ht as [_ Ht]. cbn in Ht. destruct Ht as (_ & _ & Ht).
+    assert (ND1 := aq_after_NoDup tr1 _ (aq_init_NoDup bf pend ND)).
+    eapply atrace_prefix; [apply astep_NoDup, ND1|exact Ht|apply astep_pop_notin].
+  Qed.
+
+  Lemma yields_affordable it o : In (it, o) tr ->
+    affordable bf (it_tx it) = true /\ it_fee it = eff_fee bf (it_tx it) /\
+    In (it_tx it) (txs_of (it_from it) pend).
+  Proof.
+    intros Hin. apply in_split in Hin as (tr1 & tr2 & E).
+    destruct (peek_is_best _ _ _ _ E) as [Hav _]. unfold avail in Hav.
+    assert (ND1 := aq_after_NoDup tr1 _ (aq_init_NoDup bf pend ND)).
+    destruct (head_in_split _ _ _ ND1 Hav) as (_ & _ & _ & _ & Eit & _).
+    destruct (never_before_predecessor _ _ _ _ E) as [Hn _].
+    destruct (per_account_prefix (it_from it)) as [s Hs].
+    rewrite E, proj_app, proj_cons, N.eqb_refl in Hs.
+    repeat split.
+    - assert (Hall : forall l t, In t (afford_prefix bf l) -> affordable bf t = true).
+      { intros l t. induction l as [|x l IH]; cbn; [tauto|].
+        destruct (affordable bf x) eqn:Ex; cbn; [|tauto]. intros [<-|H]; auto. }
+      eapply Hall. rewrite Hs. apply in_or_app. left. apply in_or_app. right. now left.
+    - rewrite Eit. reflexivity.
+    - eapply nth_error_In; eauto.
+  Qed.
+  End Run.
+
+  Lemma all_shift : forall (tr : list (item * op)) m k,
+    map snd tr = firstn k (repeat OShift m) -> Forall (fun p => snd p = OShift) tr.
+  Proof.
+    induction tr as [|p tr IH]; intros m k H; [constructor|].
+    destruct k as [|k], m as [|m]; cbn in H; try discriminate.
+    injection H as Hp Ht. constructor; eauto.
+  Qed.
+
+  Lemma R_heads_nil s aq : R bf s aq -> st_heads s = [] -> aq = [].
+  Proof.
+    intros (_ & _ & P & _ & Hq) E. destruct aq as [|[a q] aq]; auto.
+    destruct (Hq a q (or_introl eq_refl)) as (t & r & -> & _).
+    rewrite E in P. apply Permutation_nil in P. discriminate.
+  Qed.
+
+  Lemma R_total_zero s aq : R bf s aq -> total_len aq = O -> aq = [].
+  Proof.
+    intros (_ & _ & _ & _ & Hq) E. destruct aq as [|[a q] aq]; auto.
+    destruct (Hq a q (or_introl eq_refl)) as (t & r & -> & _). cbn in E. lia.
+  Qed.
+
+  (* all-Shift to exhaustion enumerates exactly the affordable prefixes *)
+  Lemma yields_all m :
+    (total_len (aq_init bf pend) <= m)%nat ->
+    exists tr st', run st (repeat OShift m) = Ok (tr, st') /\ empty st' = true /\
+      length tr = total_len (aq_init bf pend) /\
+      forall a, proj a tr = afford_prefix bf (txs_of a pend).
+  Proof.
+    intros Hm. destruct (run_total (repeat OShift m)) as (tr & st' & Hrun).
+    exists tr, st'. split; auto.
+    destruct (run_from_new _ _ _ _ _ _ ND Hnew Hrun) as (Ht & HR & Hs & He).
+    assert (NDq := aq_init_NoDup bf pend ND).
+    assert (Hall := all_shift _ _ _ Hs).
+    assert (Htot := atrace_total bf tr _ NDq Ht Hall).
+    assert (Hlen : (length tr <= m)%nat).
+    { apply (f_equal (@length op)) in Hs. rewrite map_length, firstn_length, repeat_length in Hs. lia. }
+    assert (Hnil : aq_after (aq_init bf pend) tr = []).
+    { destruct (Nat.lt_ge_cases (length tr) m) as [Hlt|Hge].
+      - eapply R_heads_nil; eauto. apply He. now rewrite repeat_length.
+      - eapply R_total_zero; eauto. lia. }
+    rewrite Hnil in Htot. cbn in Htot.
+    split; [|split; [lia|]].
+    - unfold empty. destruct HR as (_ & _ & P & _). rewrite Hnil in P. cbn in P.
+      apply Permutation_sym, Permutation_nil in P. now rewrite P.
+    - intros a. destruct (atrace_prefix bf tr _ NDq Ht) as [_ P2].
+      destruct (afford_prefix bf (txs_of a pend)) as [|t q] eqn:E.
+      + apply P2. intros Hin.
+        apply in_map_iff in Hin as ([b q] & Eb & Hin). cbn in Eb. subst b.
+        apply (aq_init_lookup bf pend a q ND) in Hin as [-> Hne]. congruence.
+      + apply (atrace_complete bf tr _ NDq Ht Hall Hnil).
+        apply (aq_init_lookup bf pend a _ ND). rewrite E. split; [reflexivity|discriminate].
+  Qed.
+End FromNew.
